@@ -490,6 +490,11 @@ pub mod sign {
                 }
 
                 SecretKeyBytes::Ed25519(s) => {
+                    // Ensure that the public key is an Ed25519 key, too.
+                    if public.algorithm() != SecurityAlgorithm::ED25519 {
+                        return Err(FromBytesError::InvalidKey);
+                    }
+
                     Ed25519KeyPair::from_seed_and_public_key(
                         s.expose_secret(),
                         public.public_key().as_ref(),
